@@ -131,6 +131,16 @@ async def scenario(part, r, backend, outputs):
     try:
         await cmd(b'CAPABILITY', 'capability')
         await cmd(b'ID ("name" "x\\"y" "v" NIL)', 'id')
+        # SASL exchanges on connections that are not authenticated yet: cancel, malformed, wrong, then a good one
+        for resp in (b'*', b'!!!', b'A', b'AAAAA', b'AGEAYg==', b'', b'AHUAcA=='):
+            c2 = await connect()
+            raw = await c2.send(b'a AUTHENTICATE PLAIN\r\n')
+            check_output(part, outputs, raw, dict(case, line='AUTHENTICATE PLAIN'), 'authenticate', conn=c2)
+            raw = await c2.send(resp + b'\r\n')
+            check_output(part, outputs, raw, dict(case, line='auth-response ' + resp.decode()), 'authenticate-response', conn=c2)
+            raw = await c2.send(b'a AUTHENTICATE BOGUS\r\n')
+            check_output(part, outputs, raw, dict(case, line='AUTHENTICATE BOGUS'), 'authenticate-bogus', conn=c2)
+            await c2.eof()
         await cmd(b'LOGIN u p', 'login')
         # names
         names = [r.choice(gen.HOSTILE_NAMES) for _ in range(4)] + [''.join(chr(r.choice([0x22, 0x5c, 0x0d, 0x0a, 0x00, 0x41, 0x26, 0xe9, 0x4e2d, 0x7f, 0x20, 0x25, 0x2a, 0x28, 0x7b]))
@@ -178,10 +188,6 @@ async def scenario(part, r, backend, outputs):
             tag[0] = t
             await cmd(r.choice([b'NOOP', b'BOGUS', b'FETCH', b'SELECT nobox', b'STATUS INBOX (BOGUS)', b'CREATE INBOX', b'UID', b'STORE 1 FLAGS (\\Bad']), 'tagged-error')
         tag[0] = b'a'
-        raw = await c.send(b'a AUTHENTICATE PLAIN\r\n')
-        check_output(part, outputs, raw, dict(case, line='AUTHENTICATE PLAIN'), 'authenticate')
-        raw = await c.send(r.choice([b'*', b'!!!', b'AGEAYg==']) + b'\r\n')
-        check_output(part, outputs, raw, dict(case, line='auth-response'), 'authenticate-response')
         await cmd(b'CLOSE', 'close')
         await cmd(b'LOGOUT', 'logout')
     finally:
